@@ -11,17 +11,18 @@ instance instDecEqExcept {ε α : Type} [DecidableEq ε] [DecidableEq α] : Deci
   | .ok _, .error _ => isFalse (by intro e; cases e)
   | .error _, .ok _ => isFalse (by intro e; cases e)
 
-def oD : Opt := ⟨['-','D'], .value .defines⟩
-def oI : Opt := ⟨['-','I'], .value .includePaths⟩
-def oSys : Opt := ⟨['-','i','s','y','s','t','e','m'], .value .systemPaths⟩
-def oInc : Opt := ⟨['-','i','n','c','l','u','d','e'], .value .includeFiles⟩
+def oD : Opt := ⟨['-','D'], .value (.append .defines)⟩
+def oU : Opt := ⟨['-','U'], .value (.undef .defines)⟩
+def oI : Opt := ⟨['-','I'], .value (.append .includePaths)⟩
+def oSys : Opt := ⟨['-','i','s','y','s','t','e','m'], .value (.append .systemPaths)⟩
+def oInc : Opt := ⟨['-','i','n','c','l','u','d','e'], .value (.append .includeFiles)⟩
 def oO : Opt := ⟨['-','O'], .ignoreOpt⟩
 def oo : Opt := ⟨['-','o'], .ignoreReq⟩
 def og : Opt := ⟨['-','g'], .ignoreOpt⟩
 def oc : Opt := ⟨['-','c'], .ignoreOpt⟩
 
 /-- the table the proofs are about -/
-def T : List Opt := [oD, oI, oSys, oInc, oO, oo, og, oc]
+def T : List Opt := [oD, oU, oI, oSys, oInc, oO, oo, og, oc]
 
 /-- the generated table (re-extracted from the code on every run) is the one the proofs are about -/
 theorem table_eq : table = T := by decide
@@ -29,12 +30,12 @@ theorem table_eq : table = T := by decide
 theorem settings_ok : settingsOK = true := by decide
 
 theorem lookup_T (s : List Char) : lookup T s =
-    if ['-','D'] = s then some oD else if ['-','I'] = s then some oI
+    if ['-','D'] = s then some oD else if ['-','U'] = s then some oU else if ['-','I'] = s then some oI
     else if ['-','i','s','y','s','t','e','m'] = s then some oSys
     else if ['-','i','n','c','l','u','d','e'] = s then some oInc
     else if ['-','O'] = s then some oO else if ['-','o'] = s then some oo
     else if ['-','g'] = s then some og else if ['-','c'] = s then some oc else none := by
-  simp [lookup, T, oD, oI, oSys, oInc, oO, oo, og, oc]
+  simp [lookup, T, oD, oU, oI, oSys, oInc, oO, oo, og, oc]
 
 
 theorem splitEq_spec : ∀ (x l r : List Char), splitEq x = some (l, r) → x = l ++ '=' :: r
@@ -55,10 +56,10 @@ theorem splitEq_spec : ∀ (x l r : List Char), splitEq x = some (l, r) → x = 
 
 /-- no option string has the second character `c` -/
 theorem lookup_none_second (c : Char) (l : List Char)
-    (hD : c ≠ 'D') (hI : c ≠ 'I') (hO : c ≠ 'O') (ho : c ≠ 'o') (hg : c ≠ 'g') (hc : c ≠ 'c') (hi : c ≠ 'i') :
+    (hD : c ≠ 'D') (hU : c ≠ 'U') (hI : c ≠ 'I') (hO : c ≠ 'O') (ho : c ≠ 'o') (hg : c ≠ 'g') (hc : c ≠ 'c') (hi : c ≠ 'i') :
     lookup T ('-' :: c :: l) = none := by
   rw [lookup_T]
-  simp [Ne.symm hD, Ne.symm hI, Ne.symm hO, Ne.symm ho, Ne.symm hg, Ne.symm hc, Ne.symm hi]
+  simp [Ne.symm hD, Ne.symm hU, Ne.symm hI, Ne.symm hO, Ne.symm ho, Ne.symm hg, Ne.symm hc, Ne.symm hi]
 
 theorem lookup_dash : lookup T ['-'] = none := by decide
 
@@ -112,17 +113,25 @@ theorem classify_attD (r : Char) (rs : List Char) (h : r ≠ '=') :
   have hl : ∀ l', lookup T ('-' :: 'D' :: r :: l') = none := fun l' => lookup_long 'D' r l' (by decide)
   have hv := viaEq_none_of 'D' r rs (by decide) h hl
   have ht : tuples T ('-' :: 'D' :: r :: rs) = [.opt oD (some (r :: rs))] := by
-    simp [tuples, T, oD, oI, oSys, oInc, oO, oo, og, oc]
+    simp [tuples, T, oD, oU, oI, oSys, oInc, oO, oo, og, oc]
   unfold classify
   simp [hl rs, hv, ht, pick]
 
+theorem classify_attU (r : Char) (rs : List Char) (h : r ≠ '=') :
+    classify T ('-' :: 'U' :: r :: rs) = .opt oU (some (r :: rs)) := by
+  have hl : ∀ l', lookup T ('-' :: 'U' :: r :: l') = none := fun l' => lookup_long 'U' r l' (by decide)
+  have hv := viaEq_none_of 'U' r rs (by decide) h hl
+  have ht : tuples T ('-' :: 'U' :: r :: rs) = [.opt oU (some (r :: rs))] := by
+    simp [tuples, T, oD, oU, oI, oSys, oInc, oO, oo, og, oc]
+  unfold classify
+  simp [hl rs, hv, ht, pick]
 
 theorem classify_attI (r : Char) (rs : List Char) (h : r ≠ '=') :
     classify T ('-' :: 'I' :: r :: rs) = .opt oI (some (r :: rs)) := by
   have hl : ∀ l', lookup T ('-' :: 'I' :: r :: l') = none := fun l' => lookup_long 'I' r l' (by decide)
   have hv := viaEq_none_of 'I' r rs (by decide) h hl
   have ht : tuples T ('-' :: 'I' :: r :: rs) = [.opt oI (some (r :: rs))] := by
-    simp [tuples, T, oD, oI, oSys, oInc, oO, oo, og, oc]
+    simp [tuples, T, oD, oU, oI, oSys, oInc, oO, oo, og, oc]
   unfold classify
   simp [hl rs, hv, ht, pick]
 
@@ -138,7 +147,7 @@ theorem classify_ign (c r : Char) (rs : List Char) (o : Opt)
     refine ⟨rs, ?_⟩
     have hv : viaEq T ('-' :: c :: '=' :: rs) = some (.opt o (some rs)) := by
       rcases hc with ⟨rfl, rfl⟩ | ⟨rfl, rfl⟩ | ⟨rfl, rfl⟩ | ⟨rfl, rfl⟩ <;>
-        simp [viaEq, splitEq, lookup_T, oD, oI, oSys, oInc, oO, oo, og, oc]
+        simp [viaEq, splitEq, lookup_T, oD, oU, oI, oSys, oInc, oO, oo, og, oc]
     unfold classify
     simp [hl rs, hv]
   · refine ⟨r :: rs, ?_⟩
@@ -149,7 +158,7 @@ theorem classify_ign (c r : Char) (rs : List Char) (o : Opt)
     have hv := viaEq_none_of c r rs hce hr hl
     have ht : tuples T ('-' :: c :: r :: rs) = [.opt o (some (r :: rs))] := by
       rcases hc with ⟨rfl, rfl⟩ | ⟨rfl, rfl⟩ | ⟨rfl, rfl⟩ | ⟨rfl, rfl⟩ <;>
-        simp [tuples, T, oD, oI, oSys, oInc, oO, oo, og, oc]
+        simp [tuples, T, oD, oU, oI, oSys, oInc, oO, oo, og, oc]
     unfold classify
     simp [hl rs, hv, ht, pick, hcd]
 
@@ -180,7 +189,7 @@ def incT : List Char := ['-','i','n','c','l','u','d','e']
     `other` for the property -/
 theorem unrelated_arg (a : List Char) (c : Char) (rest : List Char) (ha : a = '-' :: c :: rest)
     (hne : a ≠ ['-', '-'])
-    (hD : c ≠ 'D') (hI : c ≠ 'I') (hO : c ≠ 'O') (ho : c ≠ 'o') (hg : c ≠ 'g') (hc : c ≠ 'c')
+    (hD : c ≠ 'D') (hU : c ≠ 'U') (hI : c ≠ 'I') (hO : c ≠ 'O') (ho : c ≠ 'o') (hg : c ≠ 'g') (hc : c ≠ 'c')
     (hs1 : sysT.isPrefixOf a = false) (hs2 : a.isPrefixOf sysT = false)
     (hi1 : incT.isPrefixOf a = false) (hi2 : a.isPrefixOf incT = false) :
     (viewOf T a = .positional ∨ viewOf T a = .unknown) ∧ reading a = .other := by
@@ -190,6 +199,7 @@ theorem unrelated_arg (a : List Char) (c : Char) (rest : List Char) (ha : a = '-
   have h2 : lookup T a = none := by
     rw [lookup_T]
     have e1 : ¬ (['-','D'] = a) := by rw [ha]; simp [Ne.symm hD]
+    have e0 : ¬ (['-','U'] = a) := by rw [ha]; simp [Ne.symm hU]
     have e2 : ¬ (['-','I'] = a) := by rw [ha]; simp [Ne.symm hI]
     have e3 : ¬ (['-','O'] = a) := by rw [ha]; simp [Ne.symm hO]
     have e4 : ¬ (['-','o'] = a) := by rw [ha]; simp [Ne.symm ho]
@@ -197,7 +207,7 @@ theorem unrelated_arg (a : List Char) (c : Char) (rest : List Char) (ha : a = '-
     have e6 : ¬ (['-','c'] = a) := by rw [ha]; simp [Ne.symm hc]
     have e7 : ¬ (['-','i','s','y','s','t','e','m'] = a) := fun h => hasys h.symm
     have e8 : ¬ (['-','i','n','c','l','u','d','e'] = a) := fun h => hainc h.symm
-    simp [e1, e2, e3, e4, e5, e6, e7, e8]
+    simp [e0, e1, e2, e3, e4, e5, e6, e7, e8]
   -- the part before the first `=` is no option string either
   have h1 : ∀ l r, splitEq a = some (l, r) → lookup T l = none := by
     intro l r hs
@@ -218,7 +228,7 @@ theorem unrelated_arg (a : List Char) (c : Char) (rest : List Char) (ha : a = '-
       rw [ha, ← h] at hsp
       simp at hsp
       exact hx hsp.1
-    simp [short 'D' hD, short 'I' hI, short 'O' hO, short 'o' ho, short 'g' hg, short 'c' hc, e7, e8]
+    simp [short 'D' hD, short 'U' hU, short 'I' hI, short 'O' hO, short 'o' ho, short 'g' hg, short 'c' hc, e7, e8]
   -- no prefix interpretation
   have h3 : c = '-' ∨ tuples T a = [] := by
     by_cases hcd : c = '-'
@@ -228,8 +238,8 @@ theorem unrelated_arg (a : List Char) (c : Char) (rest : List Char) (ha : a = '-
       have p1 : ∀ x : Char, c ≠ x → a.isPrefixOf ['-', x] = false := by
         intro x hx; rw [ha]
         cases rest <;> simp [List.isPrefixOf, hx]
-      simp [tuples, T, oD, oI, oSys, oInc, oO, oo, og, oc, htake, Ne.symm hD, Ne.symm hI, Ne.symm hO, Ne.symm ho,
-        Ne.symm hg, Ne.symm hc, p1 'D' hD, p1 'I' hI, p1 'O' hO, p1 'o' ho, p1 'g' hg, p1 'c' hc]
+      simp [tuples, T, oD, oU, oI, oSys, oInc, oO, oo, og, oc, htake, Ne.symm hD, Ne.symm hU, Ne.symm hI, Ne.symm hO, Ne.symm ho,
+        Ne.symm hg, Ne.symm hc, p1 'D' hD, p1 'U' hU, p1 'I' hI, p1 'O' hO, p1 'o' ho, p1 'g' hg, p1 'c' hc]
       have hs2' : ¬ a <+: ['-','i','s','y','s','t','e','m'] := by
         rw [← List.isPrefixOf_iff_prefix]; simp only [sysT] at hs2; simp [hs2]
       have hi2' : ¬ a <+: ['-','i','n','c','l','u','d','e'] := by
@@ -241,20 +251,23 @@ theorem unrelated_arg (a : List Char) (c : Char) (rest : List Char) (ha : a = '-
   · rw [viewOf_ne a hne]
     rcases hcl with h | h <;> simp [h, viewOfCls]
   · have r1 : stripPrefix ['-','D'] a = none := by rw [ha]; simp [stripPrefix, Ne.symm hD]
+    have r0 : stripPrefix ['-','U'] a = none := by rw [ha]; simp [stripPrefix, Ne.symm hU]
     have r2 : stripPrefix ['-','I'] a = none := by rw [ha]; simp [stripPrefix, Ne.symm hI]
     have r3 := stripPrefix_none sysT a hs1
     have r4 := stripPrefix_none incT a hi1
     simp only [sysT, incT] at r3 r4
-    simp [reading, readingFrom, allFlags, Flag.text, r1, r2, r3, r4]
+    simp [reading, readingFrom, allFlags, Flag.text, r0, r1, r2, r3, r4]
 
 
-def destOf : Flag → Dest
-  | .D => .defines | .I => .includePaths | .isystem => .systemPaths | .include => .includeFiles
+/-- the parser action that stands for a flag of the property -/
+def actOf : Flag → Act
+  | .D => .append .defines | .I => .append .includePaths | .isystem => .append .systemPaths
+  | .include => .append .includeFiles | .U => .undef .defines
 
 /-- the parser's view of an argument and the property's reading of it say the same -/
 def agree : View → Reading → Bool
   | .positional, .other | .unknown, .other | .ignoreAtt, .other | .ignoreOpt, .other => true
-  | .valueAtt d (.str w), .att f w' => decide (d = destOf f) && decide (w = w')
+  | .valueAtt d (.str w), .att f w' => decide (d = actOf f) && decide (w = w')
   | _, _ => false
 
 theorem ite_nil {α : Type} (c : Prop) [Decidable c] (t : α) : (if c then [t] else []) = [] ↔ ¬ c := by
@@ -283,33 +296,34 @@ theorem prefix_facts (p a : List Char) (hne : a ≠ p) (h1 : isProperPrefixOf p 
 
 /-- what `tagsOf1 a = []` says, fact by fact -/
 theorem tagsOf1_nil (a : List Char) (h : tagsOf1 a = []) :
-    (a ≠ ['-','-'] ∧ a ≠ ['-','D','-','-'] ∧ a ≠ ['-','I','-','-']) ∧
-    (['-','D','='].isPrefixOf a = false ∧ ['-','I','='].isPrefixOf a = false) ∧
+    (a ≠ ['-','-'] ∧ a ≠ ['-','D','-','-'] ∧ a ≠ ['-','I','-','-'] ∧ a ≠ ['-','U','-','-']) ∧
+    (['-','D','='].isPrefixOf a = false ∧ ['-','I','='].isPrefixOf a = false ∧ ['-','U','='].isPrefixOf a = false) ∧
     (isProperPrefixOf sysT a = false ∧ isProperPrefixOf incT a = false) ∧
     (2 ≤ a.length → isProperPrefixOf a sysT = false ∧ isProperPrefixOf a incT = false) := by
   simp only [tagsOf1, List.append_eq_nil_iff, ite_nil] at h
   obtain ⟨⟨⟨h1, h2⟩, h3⟩, h4⟩ := h
   simp only [Bool.or_eq_true, decide_eq_true_eq, not_or, Extract.ddash, Flag.text, List.cons_append, List.nil_append,
     Bool.and_eq_true, not_and, Bool.not_eq_true, decide_eq_false_iff_not] at h1 h2 h3 h4
-  refine ⟨⟨of_decide_eq_false h1.1.1, of_decide_eq_false h1.1.2, of_decide_eq_false h1.2⟩, ⟨h2.1, h2.2⟩, ⟨h3.1, h3.2⟩, ?_⟩
+  refine ⟨⟨of_decide_eq_false h1.1.1.1, of_decide_eq_false h1.1.1.2, of_decide_eq_false h1.1.2, of_decide_eq_false h1.2⟩,
+    ⟨h2.1.1, h2.1.2, h2.2⟩, ⟨h3.1, h3.2⟩, ?_⟩
   intro hl
   have := h4 hl
   exact ⟨this.1, this.2⟩
 
 
 theorem takesValue_false (a : List Char) (h : takesValue a = false) :
-    a ≠ ['-','D'] ∧ a ≠ ['-','I'] ∧ a ≠ sysT ∧ a ≠ incT ∧ a ≠ ['-','o'] := by
+    a ≠ ['-','D'] ∧ a ≠ ['-','I'] ∧ a ≠ sysT ∧ a ≠ incT ∧ a ≠ ['-','U'] ∧ a ≠ ['-','o'] := by
   simp only [takesValue, allFlags, List.any_cons, List.any_nil, Flag.text, dashO, Bool.or_false, Bool.or_eq_false_iff,
     decide_eq_false_iff_not] at h
-  obtain ⟨⟨h1, h2, h3, h4⟩, h5⟩ := h
-  exact ⟨fun e => (of_decide_eq_false h1) e.symm, fun e => (of_decide_eq_false h2) e.symm, fun e => (of_decide_eq_false h3) e.symm, fun e => (of_decide_eq_false h4) e.symm, of_decide_eq_false h5⟩
+  obtain ⟨⟨h1, h2, h3, h4, h6⟩, h5⟩ := h
+  exact ⟨fun e => (of_decide_eq_false h1) e.symm, fun e => (of_decide_eq_false h2) e.symm, fun e => (of_decide_eq_false h3) e.symm, fun e => (of_decide_eq_false h4) e.symm, fun e => (of_decide_eq_false h6) e.symm, of_decide_eq_false h5⟩
 
 /-- **per-argument lemma**: an argument in flag position that is not a separate-form flag and has none of the
     recorded shapes is seen by the parser exactly as the property reads it -/
 theorem agree_single (a : List Char) (h1 : takesValue a = false) (h2 : tagsOf1 a = []) :
     agree (viewOf T a) (reading a) = true := by
-  obtain ⟨nD, nI, nS, nN, no⟩ := takesValue_false a h1
-  obtain ⟨⟨t1, t2, t3⟩, ⟨t4, t5⟩, ⟨t6, t7⟩, t8⟩ := tagsOf1_nil a h2
+  obtain ⟨nD, nI, nS, nN, nU, no⟩ := takesValue_false a h1
+  obtain ⟨⟨t1, t2, t3, t2u⟩, ⟨t4, t5, t4u⟩, ⟨t6, t7⟩, t8⟩ := tagsOf1_nil a h2
   cases a with
   | nil => decide
   | cons c0 tl =>
@@ -331,49 +345,63 @@ theorem agree_single (a : List Char) (h1 : takesValue a = false) (h2 : tagsOf1 a
             have hv : toVal (r :: rs) = .str (r :: rs) := by
               unfold toVal; rw [if_neg]; intro h; apply t2; rw [h]
             rw [viewOf_ne _ t1, classify_attD r rs hr]
-            simp [viewOfCls, oD, hv, reading, readingFrom, allFlags, Flag.text, stripPrefix, agree, destOf]
-        · by_cases hI : c = 'I'
-          · subst hI
+            simp [viewOfCls, oD, hv, reading, readingFrom, allFlags, Flag.text, stripPrefix, agree, actOf]
+        · by_cases hU : c = 'U'
+          · subst hU
             cases rest with
-            | nil => exact absurd rfl nI
+            | nil => exact absurd rfl nU
             | cons r rs =>
-              have hr : r ≠ '=' := by intro h; subst h; simp [List.isPrefixOf] at t5
+              have hr : r ≠ '=' := by intro h; subst h; simp [List.isPrefixOf] at t4u
               have hv : toVal (r :: rs) = .str (r :: rs) := by
-                unfold toVal; rw [if_neg]; intro h; apply t3; rw [h]
-              rw [viewOf_ne _ t1, classify_attI r rs hr]
-              simp [viewOfCls, oI, hv, reading, readingFrom, allFlags, Flag.text, stripPrefix, agree, destOf]
-          · by_cases hign : c = 'O' ∨ c = 'o' ∨ c = 'g' ∨ c = 'c'
-            · have hread : reading ('-' :: c :: rest) = .other := by
-                have r3 := stripPrefix_none sysT _ ps1
-                have r4 := stripPrefix_none incT _ pi1
-                simp only [sysT, incT] at r3 r4
-                have r1 : stripPrefix ['-','D'] ('-' :: c :: rest) = none := by simp [stripPrefix, Ne.symm hD]
-                have r2 : stripPrefix ['-','I'] ('-' :: c :: rest) = none := by simp [stripPrefix, Ne.symm hI]
-                simp only [reading, readingFrom, allFlags, Flag.text, r1, r2, r3, r4]
+                unfold toVal; rw [if_neg]; intro h; apply t2u; rw [h]
+              have r3 := stripPrefix_none sysT _ ps1
+              have r4 := stripPrefix_none incT _ pi1
+              simp only [sysT, incT] at r3 r4
+              rw [viewOf_ne _ t1, classify_attU r rs hr]
+              simp [viewOfCls, oU, hv, reading, readingFrom, allFlags, Flag.text, stripPrefix, agree, actOf, r3, r4]
+          · by_cases hI : c = 'I'
+            · subst hI
               cases rest with
-              | nil =>
-                rcases hign with rfl | rfl | rfl | rfl
-                · decide
-                · exact absurd rfl no
-                · decide
-                · decide
+              | nil => exact absurd rfl nI
               | cons r rs =>
-                have : ∃ o e, classify T ('-' :: c :: r :: rs) = .opt o (some e) ∧ (o.kind = .ignoreOpt ∨ o.kind = .ignoreReq) := by
+                have hr : r ≠ '=' := by intro h; subst h; simp [List.isPrefixOf] at t5
+                have hv : toVal (r :: rs) = .str (r :: rs) := by
+                  unfold toVal; rw [if_neg]; intro h; apply t3; rw [h]
+                rw [viewOf_ne _ t1, classify_attI r rs hr]
+                simp [viewOfCls, oI, hv, reading, readingFrom, allFlags, Flag.text, stripPrefix, agree, actOf]
+            · by_cases hign : c = 'O' ∨ c = 'o' ∨ c = 'g' ∨ c = 'c'
+              · have hread : reading ('-' :: c :: rest) = .other := by
+                  have r3 := stripPrefix_none sysT _ ps1
+                  have r4 := stripPrefix_none incT _ pi1
+                  simp only [sysT, incT] at r3 r4
+                  have r1 : stripPrefix ['-','D'] ('-' :: c :: rest) = none := by simp [stripPrefix, Ne.symm hD]
+                  have r2 : stripPrefix ['-','I'] ('-' :: c :: rest) = none := by simp [stripPrefix, Ne.symm hI]
+                  have r0 : stripPrefix ['-','U'] ('-' :: c :: rest) = none := by simp [stripPrefix, Ne.symm hU]
+                  simp only [reading, readingFrom, allFlags, Flag.text, r0, r1, r2, r3, r4]
+                cases rest with
+                | nil =>
                   rcases hign with rfl | rfl | rfl | rfl
-                  · obtain ⟨e, he⟩ := classify_ign 'O' r rs oO (Or.inl ⟨rfl, rfl⟩); exact ⟨oO, e, he, Or.inl rfl⟩
-                  · obtain ⟨e, he⟩ := classify_ign 'o' r rs oo (Or.inr (Or.inl ⟨rfl, rfl⟩)); exact ⟨oo, e, he, Or.inr rfl⟩
-                  · obtain ⟨e, he⟩ := classify_ign 'g' r rs og (Or.inr (Or.inr (Or.inl ⟨rfl, rfl⟩))); exact ⟨og, e, he, Or.inl rfl⟩
-                  · obtain ⟨e, he⟩ := classify_ign 'c' r rs oc (Or.inr (Or.inr (Or.inr ⟨rfl, rfl⟩))); exact ⟨oc, e, he, Or.inl rfl⟩
-                obtain ⟨o, e, he, hk⟩ := this
-                rw [viewOf_ne _ t1, he, hread]
-                rcases hk with hk | hk <;> simp [viewOfCls, hk, agree]
-            · have hO : c ≠ 'O' := fun h => hign (Or.inl h)
-              have ho : c ≠ 'o' := fun h => hign (Or.inr (Or.inl h))
-              have hg : c ≠ 'g' := fun h => hign (Or.inr (Or.inr (Or.inl h)))
-              have hcc : c ≠ 'c' := fun h => hign (Or.inr (Or.inr (Or.inr h)))
-              obtain ⟨hv, hr⟩ := unrelated_arg _ c rest rfl t1 hD hI hO ho hg hcc ps1 ps2 pi1 pi2
-              rw [hr]
-              rcases hv with hv | hv <;> rw [hv] <;> rfl
+                  · decide
+                  · exact absurd rfl no
+                  · decide
+                  · decide
+                | cons r rs =>
+                  have : ∃ o e, classify T ('-' :: c :: r :: rs) = .opt o (some e) ∧ (o.kind = .ignoreOpt ∨ o.kind = .ignoreReq) := by
+                    rcases hign with rfl | rfl | rfl | rfl
+                    · obtain ⟨e, he⟩ := classify_ign 'O' r rs oO (Or.inl ⟨rfl, rfl⟩); exact ⟨oO, e, he, Or.inl rfl⟩
+                    · obtain ⟨e, he⟩ := classify_ign 'o' r rs oo (Or.inr (Or.inl ⟨rfl, rfl⟩)); exact ⟨oo, e, he, Or.inr rfl⟩
+                    · obtain ⟨e, he⟩ := classify_ign 'g' r rs og (Or.inr (Or.inr (Or.inl ⟨rfl, rfl⟩))); exact ⟨og, e, he, Or.inl rfl⟩
+                    · obtain ⟨e, he⟩ := classify_ign 'c' r rs oc (Or.inr (Or.inr (Or.inr ⟨rfl, rfl⟩))); exact ⟨oc, e, he, Or.inl rfl⟩
+                  obtain ⟨o, e, he, hk⟩ := this
+                  rw [viewOf_ne _ t1, he, hread]
+                  rcases hk with hk | hk <;> simp [viewOfCls, hk, agree]
+              · have hO : c ≠ 'O' := fun h => hign (Or.inl h)
+                have ho : c ≠ 'o' := fun h => hign (Or.inr (Or.inl h))
+                have hg : c ≠ 'g' := fun h => hign (Or.inr (Or.inr (Or.inl h)))
+                have hcc : c ≠ 'c' := fun h => hign (Or.inr (Or.inr (Or.inr h)))
+                obtain ⟨hv, hr⟩ := unrelated_arg _ c rest rfl t1 hD hU hI hO ho hg hcc ps1 ps2 pi1 pi2
+                rw [hr]
+                rcases hv with hv | hv <;> rw [hv] <;> rfl
     · have hv : viewOf T (c0 :: tl) = .positional := by
         unfold viewOf classify; simp [hc0, viewOfCls]
       have hr : reading (c0 :: tl) = .other := by
@@ -396,31 +424,58 @@ theorem plain_value (v : List Char) (h : plainValue v = true) : viewOf T v = .po
       · simp [reading, readingFrom, allFlags, Flag.text, stripPrefix, Ne.symm hc]
 
 /-- shape (i): the exact modelled flags -/
-theorem sep_flag (f : Flag) : viewOf T f.text = .valueSep (destOf f) ∧ reading f.text = .sep f := by
+theorem sep_flag (f : Flag) : viewOf T f.text = .valueSep (actOf f) ∧ reading f.text = .sep f := by
   cases f <;> exact ⟨by decide, by decide⟩
 
 theorem dash_o : viewOf T dashO = .ignoreReq ∧ reading dashO = .other := ⟨by decide, by decide⟩
 
 theorem takesValue_true (a : List Char) (h : takesValue a = true) : (∃ f : Flag, a = f.text) ∨ a = dashO := by
   simp only [takesValue, allFlags, List.any_cons, List.any_nil, Bool.or_false, Bool.or_eq_true, decide_eq_true_eq] at h
-  rcases h with (h | h | h | h) | h
+  rcases h with (h | h | h | h | h) | h
   · exact Or.inl ⟨.D, h.symm⟩
   · exact Or.inl ⟨.I, h.symm⟩
   · exact Or.inl ⟨.isystem, h.symm⟩
   · exact Or.inl ⟨.include, h.symm⟩
+  · exact Or.inl ⟨.U, h.symm⟩
   · exact Or.inr h
 
 /-- the model's lists are the spec's lists, as strings -/
 def toCfg (l : Lists) : Cfg :=
   ⟨l.defines.map .str, l.userDirs.map .str, l.systemDirs.map .str, l.files.map .str⟩
 
-theorem toCfg_add (l : Lists) (f : Flag) (v : List Char) : (toCfg l).add (destOf f) (.str v) = toCfg (l.add f v) := by
-  cases f <;> simp [toCfg, Cfg.add, Lists.add, destOf]
+/-- the code's macro-name rule (stop characters read from `_UndefineAction`) is the property's -/
+theorem macroName_eq (d : List Char) : Argparse.macroName d = Extract.macroName d := by
+  unfold Argparse.macroName Extract.macroName
+  congr 1
+  funext c
+  simp only [Gen.ArgTable.undefineStops, List.contains_cons, List.contains_nil, Bool.or_false, Bool.not_or]
+  rfl
+
+/-- `_UndefineAction` on a list of strings = the property's "cancel the definitions of this macro" -/
+theorem undefList_str (v : List Char) : ∀ ds : List (List Char),
+    undefList (.str v) (ds.map .str) = some ((surviving ds [v]).map .str)
+  | [] => rfl
+  | d :: r => by
+    simp only [List.map_cons, undefList, undefList_str v r, macroName_eq, Val.str.injEq, surviving, List.filter_cons,
+      List.contains_cons, List.contains_nil, Bool.or_false, beq_iff_eq]
+    by_cases h : Extract.macroName d = v
+    · simp [h]
+    · simp [h]
+
+theorem toCfg_apply (l : Lists) (f : Flag) (v : List Char) :
+    (toCfg l).apply (actOf f) (.str v) = .ok (toCfg (l.add f v)) := by
+  cases f
+  case U => simp [toCfg, Cfg.apply, Cfg.get, Cfg.set, Lists.add, actOf, undefList_str]
+  all_goals simp [toCfg, Cfg.apply, Cfg.add, Lists.add, actOf]
+
+theorem toCfg_applyIdle (l : Lists) (f : Flag) (v : List Char) :
+    applyIdle (toCfg l) (actOf f) (.str v) = .ok (.idle, toCfg (l.add f v)) := by
+  simp [applyIdle, toCfg_apply]
 
 /-- what the parser waits for vs. what the property's scan waits for vs. what the class scan waits for -/
 inductive Rel : Pend → Option Flag → Bool → Prop
   | idle : Rel .idle none false
-  | need (f : Flag) : Rel (.need (destOf f)) (some f) true
+  | need (f : Flag) : Rel (.need (actOf f)) (some f) true
   | needIgn : Rel .needIgn none true
   | optIgn : Rel .optIgn none false
 
@@ -440,7 +495,7 @@ theorem idle_step (a : List Char) (rest : List (List Char)) (l : Lists)
   · simp only [htv, if_true] at h
     rcases takesValue_true a htv with ⟨f, rfl⟩ | rfl
     · obtain ⟨hv, hr⟩ := sep_flag f
-      exact ⟨.need (destOf f), some f, true, l, by rw [hv]; rfl, .need f, h, by simp [scan, hr]⟩
+      exact ⟨.need (actOf f), some f, true, l, by rw [hv]; rfl, .need f, h, by simp [scan, hr]⟩
     · obtain ⟨hv, hr⟩ := dash_o
       exact ⟨.needIgn, none, true, l, by rw [hv]; rfl, .needIgn, h, by simp [scan, hr]⟩
   · have htv' : takesValue a = false := by simpa using htv
@@ -459,7 +514,7 @@ theorem idle_step (a : List Char) (rest : List (List Char)) (l : Lists)
     | str w' =>
       simp only [agree, Bool.and_eq_true, decide_eq_true_eq] at hag
       obtain ⟨rfl, rfl⟩ := hag
-      exact ⟨.idle, none, false, l.add f w', by simp [idleStep, toCfg_add], .idle, h2, by simp [scan, hr]⟩
+      exact ⟨.idle, none, false, l.add f w', by simp [idleStep, toCfg_applyIdle], .idle, h2, by simp [scan, hr]⟩
 
 
 /-- the consume loop and the property's scan stay in step on a command line without recorded shapes -/
@@ -482,7 +537,7 @@ theorem run_eq_scan : ∀ (argv : List (List Char)) (p : Pend) (sp : Option Flag
       obtain ⟨hp, hc⟩ := h
       have hp' : plainValue a = true := by simpa using hp
       obtain ⟨hv, _⟩ := plain_value a hp'
-      simp only [run, step, hv, if_true, toCfg_add, scan]
+      simp only [run, step, hv, if_true, toCfg_applyIdle, scan]
       exact run_eq_scan rest .idle none false (l.add f a) .idle hc
     | needIgn =>
       simp only [classesFrom, List.append_eq_nil_iff, ite_nil] at h
